@@ -233,6 +233,20 @@ fn decode_bytes_lzw(buf: &dyn ParseBufferT, earlyexchange: i64) -> Vec<u8> {
     out
 }
 
+// The layout of a row of `columns` pixels of `colors` components of
+// `bitspercolumn` bits each: the number of bytes per complete pixel
+// (rounded up, as in the PNG specification) and the number of bytes
+// per row.  None if the sizes do not fit a usize.
+fn predictor_row_layout(
+    colors: usize, columns: usize, bitspercolumn: usize,
+) -> Option<(usize, usize)> {
+    let pixel_bits = colors.checked_mul(bitspercolumn)?;
+    let row_bits = columns.checked_mul(pixel_bits)?;
+    let pixel_bytes = pixel_bits.checked_add(7)? / 8;
+    let row_bytes = row_bits.checked_add(7)? / 8;
+    Some((pixel_bytes, row_bytes))
+}
+
 fn flate_lzw_filter(
     decoded: Vec<u8>, loc: &dyn Location, predictor: usize, colors: usize, columns: usize,
     bitspercolumn: usize,
@@ -291,17 +305,18 @@ fn flate_lzw_filter(
         Ok(ParseBuffer::new(out_buffer))
     } else if (10..=15).contains(&predictor) {
         // PNG
-        let row_length = match columns.checked_mul(colors).and_then(|n| n.checked_add(1)) {
-            Some(n) => n,
-            None => {
-                let err = ErrorKind::TransformError(
-                    "PNG filter: row size overflows for specified columns".to_string(),
-                );
-                return Err(locate_value(err, loc.loc_start(), loc.loc_end()))
-            },
-        };
+        let (bytes_per_pixel, row_length) =
+            match predictor_row_layout(colors, columns, bitspercolumn) {
+                // each row is preceded by its filter type byte
+                Some((pixel_bytes, row_bytes)) => (pixel_bytes, row_bytes + 1),
+                None => {
+                    let err = ErrorKind::TransformError(
+                        "PNG filter: invalid colors, columns or bits per component".to_string(),
+                    );
+                    return Err(locate_value(err, loc.loc_start(), loc.loc_end()))
+                },
+            };
         let rows = decoded.len() / row_length;
-        let bytes_per_pixel = bitspercolumn / 8;
 
         if row_length > decoded.len() {
             let err = ErrorKind::TransformError(
